@@ -176,10 +176,16 @@ def run(ctx):
         if ctx.time_left() < 6:
             break
         sites = [_site(rng) for _ in range(rng.randrange(1, 4))]
+        if rng.random() < 0.35:
+            # two facilities sharing latitude and longitude at different heights (valley radar / summit telescope)
+            sites.append((sites[0][0], sites[0][1], sites[0][2] + rng.choice([0.3, 1.0, 2.5])))
+            ctx.count("scenarios_with_colocated_sites")
         start = _start(rng)
         step = rng.choice([2, 10, 60, 100, 300, 600, 3600])
         nsteps = rng.randrange(2, 9)
         late = (rng.randrange(0, nsteps), _site(rng)) if rng.random() < 0.5 else None
+        if late and rng.random() < 0.3:
+            late = (late[0], (sites[-1][0], sites[-1][1], sites[-1][2] + 1.2))  # joins at the latitude/longitude of a running site
         scenario_case(ctx, sites, start, step, nsteps, late)
         ctx.count("scenario_runs")
         ctx.case(("s", tuple(sites), start.isoformat(), step, nsteps), nontrivial=start.second != 0, sample={"sites": sites, "start": start.isoformat(), "step": step, "steps": nsteps} if i % 10 == 0 else None)
